@@ -6,7 +6,7 @@
    range); int64 fields are wrap_i64 of it. *)
 From Coq Require Import ZArith Znumtheory List Lia Bool String.
 From PV Require Import M_Profile M_Codec L_Codec_Wire L_Codec_Total S_Codec M_Valid S_Valid L_Valid L_Codec_Parsed
-  L_Codec_Regroup L_Codec_Main.
+  L_Codec_Regroup L_Codec_Main L_Codec_Norm.
 Import ListNotations.
 Open Scope string_scope.
 Open Scope Z_scope.
@@ -553,4 +553,20 @@ Theorem parsed_copy_lemma data q r :
   copy q = Ok (normalize q).
 Proof.
   intros HP CV PE SZ. apply (copy_lemma q r); [exact (parsed_valid_lemma _ _ HP CV)|exact (parsed_units_wf _ _ HP)|exact PE|exact SZ].
+Qed.
+
+(* anything the parser returns: written and parsed back it gives its normal form, which is then
+   reproduced exactly *)
+Lemma parser_output_roundtrip_lemma data q r r' :
+  parse_uncompressed data = Ok q -> check_valid q = true ->
+  pre_encode q = Ok r -> size_ok r -> pre_encode (normalize q) = Ok r' -> size_ok r' ->
+  serialize q = Ok (enc_profile r) /\ parse_uncompressed (enc_profile r) = Ok (normalize q) /\
+  serialize (normalize q) = Ok (enc_profile r') /\ parse_uncompressed (enc_profile r') = Ok (normalize q).
+Proof.
+  intros HP CV PE SZ PE' SZ'.
+  pose proof (parsed_valid_lemma data q HP CV) as V.
+  pose proof (parsed_units_wf data q HP) as U.
+  destruct (write_parse_roundtrip_lemma q r V U PE SZ) as [A B].
+  destruct (reparse_fixpoint q r' V PE' SZ') as [C D].
+  repeat split; assumption.
 Qed.
